@@ -31,9 +31,13 @@ DEAD = "sensor_level > 2000"
 LIVE = "sensor_level >= 0"
 
 
+N_KINDS = 19
+
+
 def site(rng, k):
     """A fold site: returns dict(kind, decl(var form), use_lit, use_var, var, mutate(value-change line), finding keys)."""
-    kinds = ["sleep", "brightness", "blink", "len-str", "len-list", "flash-pattern", "glyph", "rgb", "fade", "ultra-model", "servo-bounds", "range-count", "expr-fold", "const-arith", "param-shadow", "led-rebind", "swap-fold", "aug-fold"]
+    kinds = ["sleep", "brightness", "blink", "len-str", "len-list", "flash-pattern", "glyph", "rgb", "fade", "ultra-model", "servo-bounds", "range-count", "expr-fold", "const-arith", "param-shadow", "led-rebind", "swap-fold", "aug-fold", "twin-literals"]
+    assert len(kinds) == N_KINDS
     kind = kinds[k % len(kinds)]
     v = f"v{k}"
     if kind == "sleep":
@@ -104,6 +108,16 @@ def site(rng, k):
                f"x{k} = {x}\ny{k} = {y}\n{tup}\npa{k} = [x{k}, y{k}, 1]\nled.flash_pattern(pa{k}, 2)\nsleep(y{k} + 1)")
         lit = f'mon.write({len(a)})\nsleep({len(b) * 10 + 1})\nled.flash_pattern({[nx, ny, 1]}, 2)\nsleep({ny + 1})'
         return dict(kind=kind, var=v, decl=f"{v} = 0", lit=lit, use=use, expr=use, mut=None, mut_lit=None, whole=True)
+    if kind == "twin-literals":
+        # two lists written with the same literal text are two lists: changing one leaves every fold on the other alone
+        lit_l = rng.choice(["[1, 0, 1]", "[5, 6]", "[1, 0, 128, 0]"])
+        vals = eval(lit_l)
+        extra = rng.choice([0, 1, 64])
+        use = (f"ta{k} = {lit_l}\ntb{k} = {lit_l}\nta{k}.append({extra})\nmon.write(len(tb{k}))\nled.flash_pattern(tb{k}, 3)\n"
+               f"tc{k} = {lit_l}\nmon.write(len(tc{k}))\nfor q{k} in range(len(tb{k})):\n    mon.write(tb{k}[q{k}])\nmon.write(len(ta{k}))")
+        lit = (f"mon.write({len(vals)})\nled.flash_pattern({lit_l}, 3)\nmon.write({len(vals)})\n" +
+               "\n".join(f"mon.write({x})" for x in vals) + f"\nmon.write({len(vals) + 1})")
+        return dict(kind=kind, var=v, decl=f"{v} = 0", lit=lit, use=use, expr=use, mut=None, mut_lit=None, whole=True)
     if kind == "aug-fold":
         # after an augmented assignment the name holds a run-time value: everything derived from it is evaluated at run time
         a, b = rng.choice([("ab", "c"), ("", "xyz"), ("q", "")])
@@ -135,13 +149,16 @@ def indent(text, n=1):
 def make_pair(rng, idx):
     """-> (P, P', transformation, site kind, expected finding id or None)"""
     s = site(rng, idx)
-    where = rng.choice(["setup", "loop"])
     forms = ["delit"]
     if s.get("expr"):
         forms.append("delit-expr")
     if s.get("mut"):
         forms += ["dead-branch", "dead-loop", "live-branch"]
-    tr = forms[(idx // 13) % len(forms)]
+    # site kind = idx mod N_KINDS (see site()); transformation and placement cycle deterministically over the rounds,
+    # so every (site, transformation, placement) triple occurs once 2 * len(forms) * N_KINDS cases have run
+    rnd = idx // N_KINDS
+    tr = forms[rnd % len(forms)]
+    where = ["setup", "loop"][(rnd // len(forms)) % 2]
     finding = None
 
     def place(lines_pre, lines_use):
@@ -261,7 +278,7 @@ def main() -> int:
     rep = Report(PROP)
     t = tier()
     sd = seed()
-    n = 280 if t == "quick" else 1680
+    n = 2 * 5 * N_KINDS if t == "quick" else 2 * 5 * N_KINDS * 10
     for case, st, res in run_cases(run_pair, [(i, sd, 2) for i in range(n)]):
         if st != "ok":
             rep.inconclusive_because(f"pair {case[0]} failed: {res[-300:]}")
